@@ -184,7 +184,7 @@ func (p *Project) Render(opts RenderOpts) *Rendered {
 				body.WriteString("// " + s.Descr + "\n")
 			}
 			body.WriteString("type " + s.Name + " struct {\n")
-			if s.IsError {
+			if s.IsError && !s.ErrorLast {
 				body.WriteString("\terror\n")
 			}
 			for _, f := range s.Fields {
@@ -215,6 +215,9 @@ func (p *Project) Render(opts RenderOpts) *Rendered {
 				} else {
 					body.WriteString("\t" + f.GoName + " " + f.Type.GoExpr(pk.Key, q) + tag + "\n")
 				}
+			}
+			if s.IsError && s.ErrorLast {
+				body.WriteString("\terror\n")
 			}
 			body.WriteString("}\n\n")
 		}
@@ -253,36 +256,60 @@ func (p *Project) Render(opts RenderOpts) *Rendered {
 		declPath := filepath.Join(p.Pkg(c.Pkg).Dir, c.Files[0])
 		fa := getFile(c.Pkg, c.Files[0])
 		fa.imports["github.com/gopher-fleece/runtime"] = true
+		for _, lf := range c.LeadFields {
+			if strings.Contains(lf, "sync.") {
+				fa.imports["sync"] = true
+			}
+		}
 		fa.chunks = append(fa.chunks, func(b *fileBuilder) {
 			key := "ctl/" + c.Name
+			ind, off := "", 0
+			if c.Grouped {
+				b.line("// Declarations of this file, grouped (this comment belongs to the block, not to a type).")
+				b.line("type (")
+				ind, off = "\t", 1
+			}
 			first := len(b.lines)
 			if c.Descr != "" {
-				b.line("// " + c.Descr)
+				b.line(ind + "// " + c.Descr)
 			}
 			if !c.NoTag {
-				ln := b.line("// @Tag(" + c.Tag + ")")
-				out.Positions[key+"/ann/Tag"] = Pos{File: declPath, Line: ln, EndLine: ln, EndCol: runeLen(b.lines[ln])}
+				ln := b.line(ind + "// @Tag(" + c.Tag + ")")
+				out.Positions[key+"/ann/Tag"] = Pos{File: declPath, Line: ln, EndLine: ln, Col: off, EndCol: runeLen(b.lines[ln])}
 			}
 			if !c.NoRouteAnn {
-				ln := b.line("// @Route(" + c.Route + ")")
-				out.Positions[key+"/ann/Route/value"] = Pos{File: declPath, Line: ln, EndLine: ln, Col: runeLen("// @Route("), EndCol: runeLen("// @Route(") + runeLen(c.Route)}
+				ln := b.line(ind + "// @Route(" + c.Route + ")")
+				out.Positions[key+"/ann/Route/value"] = Pos{File: declPath, Line: ln, EndLine: ln, Col: off + runeLen("// @Route("), EndCol: off + runeLen("// @Route(") + runeLen(c.Route)}
 			}
 			for i, s := range c.Security {
-				ln := b.line(securityAnnotation(s))
-				out.Positions[fmt.Sprintf("%s/ann/Security/%d", key, i)] = Pos{File: declPath, Line: ln, EndLine: ln, EndCol: runeLen(b.lines[ln])}
+				ln := b.line(ind + securityAnnotation(s))
+				out.Positions[fmt.Sprintf("%s/ann/Security/%d", key, i)] = Pos{File: declPath, Line: ln, EndLine: ln, Col: off, EndCol: runeLen(b.lines[ln])}
 			}
 			for i, x := range c.ExtraAnn {
-				ln := b.line(x)
-				out.Positions[fmt.Sprintf("%s/extra/%d", key, i)] = Pos{File: declPath, Line: ln, EndLine: ln, EndCol: runeLen(b.lines[ln])}
+				ln := b.line(ind + x)
+				out.Positions[fmt.Sprintf("%s/extra/%d", key, i)] = Pos{File: declPath, Line: ln, EndLine: ln, Col: off, EndCol: runeLen(b.lines[ln])}
 			}
 			last := len(b.lines) - 1
 			if last >= first {
 				out.Positions[key+"/comment"] = Pos{File: declPath, Line: first, EndLine: last, EndCol: runeLen(b.lines[last])}
 			}
-			ln := b.line("type " + c.Name + " struct {")
-			b.line("\truntime.GleeceController")
-			end := b.line("}")
-			out.Positions[key+"/decl"] = Pos{File: declPath, Line: ln, Col: 5, EndLine: end, EndCol: 1}
+			var ln, end int
+			if c.Grouped {
+				ln = b.line(ind + c.Name + " struct {")
+			} else {
+				ln = b.line("type " + c.Name + " struct {")
+			}
+			for _, lf := range c.LeadFields {
+				b.line(ind + "\t" + lf)
+			}
+			b.line(ind + "\truntime.GleeceController")
+			end = b.line(ind + "}")
+			if c.Grouped {
+				b.line(")")
+				out.Positions[key+"/decl"] = Pos{File: declPath, Line: ln, Col: off, EndLine: end, EndCol: 1 + off}
+			} else {
+				out.Positions[key+"/decl"] = Pos{File: declPath, Line: ln, Col: 5, EndLine: end, EndCol: 1}
+			}
 			b.line("")
 		})
 		for mi := range c.Methods {
@@ -330,6 +357,9 @@ func (p *Project) Render(opts RenderOpts) *Rendered {
 				first := len(b.lines)
 				mark := func(k string, ln, col, endCol int) {
 					out.Positions[key+"/"+k] = Pos{File: mPath, Line: ln, Col: col, EndLine: ln, EndCol: endCol}
+				}
+				for _, ll := range m.LeadLines {
+					b.line(ll)
 				}
 				if m.Descr != "" && !m.UseDescrAnn {
 					for _, dl := range strings.Split(m.Descr, "\n") {
